@@ -3143,6 +3143,8 @@ define_method(CPPInstance *function, InterrogateType &itype,
           ftype->_return_type->is_reference() &&
           !ftype->_return_type->remove_reference()->is_const() &&
           (ftype->_flags & CPPFunctionType::F_const_method) == 0 &&
+          ftype->_parameters != nullptr &&
+          ftype->_parameters->_parameters.size() == 1 &&
           function->get_simple_name() == "operator []") {
 
         // Make up a CPPFunctionType with extra parameter.
